@@ -243,7 +243,13 @@ func deferFn(fm *Frame, fn Callable) error {
 	}
 	deferTraceback := fm.traceback
 	fm.addDefer(func(fm *Frame) Exception {
-		err := fn.Call(fm, NoArgs, NoOpts)
+		// Call in a fork: a closure overwrites fields of the frame it is
+		// called with, and this frame is still needed by the deferred
+		// functions and restores that run after this one.
+		err := fn.Call(fm.Fork(), NoArgs, NoOpts)
+		if err == nil {
+			return nil
+		}
 		if exc, ok := err.(Exception); ok {
 			return exc
 		}
